@@ -57,6 +57,20 @@ def make(tr, cfg, run, live):
     elif cfg.fallback == 3:
         fb = ['never_recorded', 'A_old']
 
+    from playback.interception.output_interception import OutputInterceptionDataHandler
+
+    class OutH(OutputInterceptionDataHandler):
+        """prepares fine while recording; raises while replaying (e.g. the file it reads does not exist there)"""
+        def prepare_output_for_recording(self, interception_key, args, kwargs):
+            run['handler'].append(interception_key)
+            if tr.in_playback_mode:
+                raise IOError('not available on the replay machine')
+            return {'args': list(args), 'kwargs': kwargs}
+
+        def restore_output_from_recording(self, recorded_data):
+            return recorded_data
+    okw = {'data_handler': OutH()} if cfg.out_handler else {}
+
     class Svc(object):
         @tr.operation()
         def execute(self):
@@ -82,6 +96,10 @@ def make(tr, cfg, run, live):
                             value_when_missing=subst)
         def a(self, x):
             run['journal'].append(('a', x))
+            if cfg.nested:
+                # the body of a wraps another, recorded, interception (a new interception added around old ones):
+                # when a's original runs during replay because it is missing, b must still be answered from the recording
+                run['nested'].append(self.b(0))
             return VAL[('a', x)] + live
 
         @tr.intercept_input('A_old')
@@ -95,7 +113,7 @@ def make(tr, cfg, run, live):
             return VAL[('b', x)] + live
 
         @tr.intercept_output('o', fail_on_no_recorded_result=cfg.fail_out,
-                             default_result_when_not_recorded=cfg.default_out)
+                             default_result_when_not_recorded=cfg.default_out, **okw)
         def o(self, v):
             run['journal'].append(('o', v))
             return 500 + len([j for j in run['journal'] if j[0] == 'o']) + live
@@ -118,7 +136,7 @@ def _lrep():
 
 
 def _new_run(script):
-    return {'script': script, 'site': [], 'journal': [], 'subst_calls': []}
+    return {'script': script, 'site': [], 'journal': [], 'subst_calls': [], 'nested': [], 'handler': []}
 
 
 def _reference(cfg, rec_script, rep_script):
@@ -145,7 +163,11 @@ def _reference(cfg, rec_script, rep_script):
                 site.append(('ret', VAL[('A_old', op)]))
             elif cfg.run_missing:
                 journal.append(('a', op))
-                site.append(('ret', VAL[('a', op)] + LIVE))
+                if cfg.nested and ('b', 0) not in have:
+                    # a's original runs and asks for b(0), which the recording lacks: the missing-key error surfaces
+                    site.append(('missing',))
+                else:
+                    site.append(('ret', VAL[('a', op)] + LIVE))
             elif SUBST[cfg.subst] is not None:
                 s = SUBST[cfg.subst]
                 site.append(('ret', 77 + op if s == 'callable' else s))
@@ -175,6 +197,8 @@ def _policy(rec, rep, run_missing, fail_out, default_out, enabled_during_replay,
     cfg.run_missing = run_missing
     cfg.fail_out = fail_out
     cfg.default_out = default_out
+    cfg.nested = bool(ctx.S('nested'))
+    cfg.out_handler = bool(ctx.S('out_handler'))
     if ctx.excluded('C02-falsy-substitute', cfg.subst in (1, 2, 3, 4)):
         return True
     rec = [ctx.pick(x, range(7)) for x in rec]
@@ -254,12 +278,17 @@ CONDITIONS = [
      'what': 'independent recorded and replayed programs over two input aliases, a legacy alias and an output',
      'tiers': {'quick': {'bounds': {'LREC': 2, 'LREP': 2, 'RECOPS': [0, 2, 6], 'REPOPS': [0, 1, 6]}, 'timeout': 600,
                          'shards': [{'fallback': 1, 'subst': 5, 'first': x, 'firstrep': y} for x in (None, 0, 2, 6)
-                                    for y in (None, 0, 1, 6)],
+                                    for y in (None, 0, 1, 6)] +
+                                   [{'fallback': 0, 'subst': 0, 'first': x, 'firstrep': y, 'nested': True} for x in (None, 4) for y in (0, 6)] +
+                                   [{'fallback': 0, 'subst': 0, 'first': 6, 'firstrep': y, 'out_handler': True} for y in (0, 6)],
                          'witness_shard': {'fallback': 1, 'subst': 5, 'first': 0, 'firstrep': 1}},
                'thorough': {'bounds': {'LREC': 2, 'LREP': 2, 'RECOPS': [0, 1, 2, 3, 4, 5, 6], 'REPOPS': [0, 1, 4, 5, 6]},
                             'timeout': 6000,
                             'shards': [{'fallback': f, 'subst': sb, 'first': x, 'firstrep': y}
                                        for f, sb in ((1, 5), (3, 1), (0, 0), (2, 6))
-                                       for x in (None, 0, 1, 2, 3, 4, 5, 6) for y in (None, 0, 1, 4, 5, 6)],
+                                       for x in (None, 0, 1, 2, 3, 4, 5, 6) for y in (None, 0, 1, 4, 5, 6)] +
+                                      [{'fallback': f, 'subst': 0, 'first': x, 'firstrep': y, 'nested': True} for f in (0, 1)
+                                       for x in (None, 0, 2, 4) for y in (0, 1, 6)] +
+                                      [{'fallback': 0, 'subst': 0, 'first': x, 'firstrep': y, 'out_handler': True} for x in (None, 0, 6) for y in (0, 6)],
                             'witness_shard': {'fallback': 1, 'subst': 5, 'first': 0, 'firstrep': 1}}}},
 ]
